@@ -34,6 +34,22 @@ Definition perfect_in (g : list wedge) (nodes : list idx) (mw : wmates) : Prop :
 Definition min_perfect_in (g : list wedge) (nodes : list idx) (mw : wmates) : Prop :=
   perfect_in g nodes mw /\ forall mw', perfect_in g nodes mw' -> wtotal mw <= wtotal mw'.
 
+(* the same contract for a matching given as bare pairs, weighed by the graph: the weight of {a, b} is that of the entry
+   of the graph joining a and b, in either orientation (the decoder's graphs have exactly one such entry) *)
+Definition joins (a b : idx) (t : wedge) : bool :=
+  (zeqb2 (fst (fst t)) a && zeqb2 (snd (fst t)) b) || (zeqb2 (fst (fst t)) b && zeqb2 (snd (fst t)) a).
+Definition gweight (g : list wedge) (a b : idx) : Z :=
+  match find (joins a b) g with Some (_, _, Some w) => w | _ => 0 end.
+Definition mweight (g : list wedge) (m : mates) : Z := fold_right (fun p acc => gweight g (fst p) (snd p) + acc) 0 m.
+Definition min_matching (g : list wedge) (nodes : list idx) (m : mates) : Prop :=
+  Permutation (ends2 m) nodes /\ uses g m /\
+  forall m', Permutation (ends2 m') nodes -> uses g m' -> mweight g m <= mweight g m'.
+Lemma find_ex {A} (f : A -> bool) l x : In x l -> f x = true -> exists y, find f l = Some y.
+Proof.
+  induction l as [|a l IH]; intros Hin Hf; [destruct Hin|]. cbn [find]. destruct (f a) eqn:E; [eauto|].
+  destruct Hin as [->|Hin]; [congruence|auto].
+Qed.
+
 (* pairing off a list *)
 Fixpoint pairup {A} (l : list A) : list (A * A) :=
   match l with
@@ -87,6 +103,12 @@ Lemma ends2_in {A} (P : list (A * A)) a b : In (a, b) P -> In a (ends2 P) /\ In 
 Proof. intros H. unfold ends2. rewrite !in_flat_map. split; exists (a, b); cbn; auto. Qed.
 Lemma wtotal_app m1 m2 : wtotal (m1 ++ m2) = wtotal m1 + wtotal m2.
 Proof. induction m1 as [|t m IH]; [reflexivity|]. cbn [app wtotal fold_right]. fold (wtotal (m ++ m2)). fold (wtotal m). lia. Qed.
+
+Lemma drawn_uses g mw : drawn g mw -> uses g (unw mw).
+Proof.
+  intros Hd x y Hxy. unfold unw in Hxy. apply in_map_iff in Hxy. destruct Hxy as ([[x' y'] w'] & E & Ht). cbn [fst] in E.
+  injection E as -> ->. exists (Some w'). exact (Hd x y w' Ht).
+Qed.
 
 Section Correct.
 Variables rows cols : Z.
@@ -210,6 +232,49 @@ Proof.
 Qed.
 
 (* ------------------------------------------------------------------ *)
+(** * The X part / Z part of a product of path operators                *)
+(* ------------------------------------------------------------------ *)
+Notation partp := (part rows cols).
+Notation pop := (pathop rows cols).
+Lemma part_xorv pr a b : length a = length b -> partp pr (xorv a b) = xorv (partp pr a) (partp pr b).
+Proof. intros H. unfold part. destruct pr; [apply firstn_xorv|now apply skipn_xorv]. Qed.
+Lemma part_zeros pr : partp pr (zeros (N + N)) = zeros N.
+Proof. rewrite <- (embed_zeros rows cols pr). apply part_embed, zeros_length. Qed.
+Definition ops_weight (pr : bool) (m : mates) : nat :=
+  fold_right (fun q acc => (count_true (partp pr (pop (fst q) (snd q))) + acc)%nat) 0%nat m.
+Lemma xsum_part_le pr m : (forall q, In q m -> ok rows cols (fst q) (snd q)) ->
+  (count_true (partp pr (xsum (N + N) (pair_ops idx pop m))) <= ops_weight pr m)%nat.
+Proof.
+  induction m as [|q m IH]; intros Hok.
+  - cbn [pair_ops map xsum fold_right ops_weight]. now rewrite part_zeros, count_true_zeros.
+  - cbn [pair_ops map ops_weight fold_right]. fold (pair_ops idx pop m). fold (ops_weight pr m). rewrite xsum_cons.
+    assert (Hok' : forall q0, In q0 m -> ok rows cols (fst q0) (snd q0)) by (intros; apply Hok; cbn; auto).
+    rewrite part_xorv.
+    + pose proof (count_true_xorv (partp pr (pop (fst q) (snd q))) (partp pr (xsum (N + N) (pair_ops idx pop m)))).
+      specialize (IH Hok'). lia.
+    + rewrite (ok_len rows cols Hr Hc) by (apply Hok; cbn; auto). symmetry. apply xsum_len.
+      exact (pair_ops_rowlen idx (N + N) pop (ok rows cols) (ok_len rows cols Hr Hc) m Hok').
+Qed.
+
+(* what a path operator between two nodes of lattice pr looks like *)
+Lemma pathop_parts pr a b : lat a pr -> ok rows cols a b ->
+  exists rs cs, planar_translation rows cols a b = Some (rs, cs) /\
+    Z.of_nat (count_true (partp pr (pop a b))) <= Z.abs rs + Z.abs cs /\
+    partp (negb pr) (pop a b) = zeros N.
+Proof.
+  intros [Ta Pa] Hok. destruct (ok_path rows cols Hr Hc a b Hok) as (rs & cs & Ht & Hp & _).
+  exists rs, cs. split; [exact Ht|]. rewrite Hp, sop_gop, gop_parts. unfold path_op. rewrite Pa.
+  set (L := path_sites a rs cs).
+  assert (HL : Z.of_nat (length L) = Z.abs rs + Z.abs cs) by apply path_sites_length.
+  assert (Hf : (count_true (flips (keys inb (PlanarAll.fl rows cols) L) (zeros N)) <= length L)%nat).
+  { pose proof (count_true_flips_le (keys inb (PlanarAll.fl rows cols) L) (zeros N)) as H. rewrite count_true_zeros in H.
+    unfold keys in *. rewrite map_length in H. pose proof (filter_len_le inb L). lia. }
+  unfold part, PlanarAll.xpart, PlanarAll.zpart. destruct pr; cbn [negb xbit zbit].
+  - rewrite firstn_N_app, skipn_N_app by (rewrite flips_length; apply zeros_length). split; [lia|reflexivity].
+  - rewrite firstn_N_app, skipn_N_app by apply zeros_length. split; [lia|reflexivity].
+Qed.
+
+(* ------------------------------------------------------------------ *)
 (** * From a proper matching of the defects to a perfect matching of the decoder's graph *)
 (* ------------------------------------------------------------------ *)
 Section OneLattice.
@@ -220,6 +285,7 @@ Hypothesis Hds : forall q, In q ds -> In q PI /\ planar_is_primal q = pr.
 Hypothesis Hnd : NoDup ds.
 Hypothesis Hex : inb extra = false.
 Hypothesis Hexs : ~ instrip rows cols extra.
+Hypothesis Hexl : lat extra pr.
 Notation G := (planar_graph rows cols ds extra).
 Notation VN := (vnodes rows cols ds extra).
 
@@ -315,5 +381,237 @@ Proof.
       fold (wtotal (map (fun p0 : idx * idx => (fst p0, snd p0, 0)) l)). rewrite IH. reflexivity. }
     lia.
 Qed.
+
+(* (1) the defects of the error's part of type pr have a perfect matching in the decoder's graph of total weight at most
+   the number of qubits of that part *)
+Theorem cheap_matching e : length e = (N + N)%nat ->
+  (forall q, In q ds <-> In q PI /\ planar_is_primal q = pr /\ bsp e (stabq q) = true) ->
+  exists mw, perfect_in G (lattice_nodes rows cols ds extra) mw /\ wtotal mw <= Z.of_nat (count_true (partp pr e)).
+Proof.
+  intros He Hchar.
+  destruct (error_pairs rows cols Hr Hc pr e He) as (L & HL1 & HL2 & HL3).
+  destruct (matching_from_pairs idx zeqb2 zeqb2_eq (d2 pr) (d2_nonneg pr) (d2_sym pr) (d2_tri pr)
+              idx zeqb2 zeqb2_eq (vk pr) (vk_merge pr) (map npair L)) as (P & Sg & M1 & M2 & M3 & M4).
+  assert (Pm : Permutation (ends2 P ++ Sg) ds).
+  { apply NoDup_Permutation; auto. intros q. rewrite M2. split.
+    - intros Hp. pose proof (par_true_in idx zeqb2 zeqb2_eq q _ Hp) as Hin.
+      destruct (in_rends_npairs q L Hin) as (Hiq & p & HpL & Hqp).
+      destruct (HL2 p HpL) as (s & Hs & ->). destruct (sends_facts pr s Hs) as [F _].
+      destruct (F q Hqp Hiq) as [F1 F2]. apply Hchar. split; [exact F1|]. split; [exact F2|].
+      rewrite (HL3 q F1 F2), <- (par_rends_npairs q L Hiq). exact Hp.
+    - intros Hq. apply Hchar in Hq. destruct Hq as (F1 & F2 & F3).
+      assert (Hiq : inb q = true) by (apply in_plaquette_indices in F1; tauto).
+      now rewrite (par_rends_npairs q L Hiq), <- (HL3 q F1 F2). }
+  destruct (graph_matching_of P Sg Pm M3) as [Hperf Hw].
+  exists (mw_of P Sg). split; [exact Hperf|]. pose proof (cost_npairs pr L HL2). lia.
+Qed.
+
+(* (2) the part of type pr of the recovery of a matching drawn from the graph weighs no more than the matching *)
+Lemma perfect_nodes mw : perfect_in G (lattice_nodes rows cols ds extra) mw ->
+  forall a b w, In (a, b, w) mw -> ok rows cols a b /\ lat a pr.
+Proof.
+  intros [Pm Hd] a b w Hin.
+  assert (Hu : uses G (unw mw)).
+  { intros x y Hxy. unfold unw in Hxy. apply in_map_iff in Hxy. destruct Hxy as ([[x' y'] w'] & E & Ht). cbn [fst] in E.
+    injection E as -> ->. exists (Some w'). exact (Hd x y w' Ht). }
+  pose proof (graph_extra_not_with_defect rows cols Hr Hc ds extra pr (unw mw) Hds Hex Hexs Hu) as Hno.
+  assert (Hab : In (a, b) (unw mw)) by (unfold unw; apply in_map_iff; exists (a, b, w); auto).
+  split.
+  - exact (mates_ok rows cols Hr Hc ds extra pr (unw mw) Hds Hexl Hex Pm Hno (a, b) Hab).
+  - assert (Ha : In a (lattice_nodes rows cols ds extra)).
+    { eapply Permutation_in; [exact Pm|]. apply (ends2_in _ a b Hab). }
+    now destruct (lattice_node_facts rows cols Hr Hc ds extra pr Hds Hexl Hex a Ha) as (La & _).
+Qed.
+
+Lemma edge_weight a b w : ok rows cols a b -> lat a pr -> In (a, b, Some w) G \/ In (b, a, Some w) G ->
+  Z.of_nat (count_true (partp pr (pop a b))) <= w.
+Proof.
+  intros Hok La Hin. destruct (pathop_parts pr a b La Hok) as (rs & cs & Ht & Hw & _).
+  assert (Hd : Planar.distance rows cols a b = Some (Z.abs rs + Z.abs cs)) by (unfold Planar.distance; now rewrite Ht).
+  destruct Hok as (Ta & Tb & Sab & _).
+  assert (Sba : same_type b a) by (destruct Sab; split; congruence).
+  enough (Z.abs rs + Z.abs cs <= w) by lia.
+  assert (Hvv : In a VN -> In b VN -> Z.abs rs + Z.abs cs <= 0).
+  { intros Ha Hb. pose proof (vnodes_out rows cols Hr Hc ds extra pr Hds Hex a Ha) as Ia.
+    pose proof (vnodes_out rows cols Hr Hc ds extra pr Hds Hex b Hb) as Ib.
+    destruct (translation_cases rows cols a b Ta Tb Sab) as (rs' & cs' & Ht' & Hcase). rewrite Ht in Ht'. injection Ht' as <- <-.
+    destruct Hcase as [(_ & _ & -> & ->)|([E|E] & _)]; [lia|congruence|congruence]. }
+  assert (Hinb : forall x, In x ds -> inb x = true).
+  { intros x Hx. destruct (Hds x Hx) as [HP _]. apply in_plaquette_indices in HP; tauto. }
+  destruct Hin as [Hin|Hin]; apply graph_edge_cases in Hin; destruct Hin as [(Ha & _ & E)|[(Ha & Hb & E)|(Ha & Hb & E)]].
+  - rewrite Hd in E. injection E as ->. lia.
+  - rewrite Hd in E. injection E as ->. lia.
+  - injection E as ->. now apply Hvv.
+  - rewrite (distance_sym rows cols b a Tb Ta Sba (or_introl (Hinb b Ha))), Hd in E. injection E as ->. lia.
+  - rewrite (distance_sym rows cols b a Tb Ta Sba (or_introl (Hinb b Ha))), Hd in E. injection E as ->. lia.
+  - injection E as ->. now apply Hvv.
+Qed.
+
+Theorem matching_weight mw : perfect_in G (lattice_nodes rows cols ds extra) mw ->
+  (forall q, In q (unw mw) -> ok rows cols (fst q) (snd q)) /\
+  Z.of_nat (ops_weight pr (unw mw)) <= wtotal mw /\ ops_weight (negb pr) (unw mw) = 0%nat.
+Proof.
+  intros Hperf. pose proof (perfect_nodes mw Hperf) as Hall. destruct Hperf as [_ Hd].
+  split.
+  - intros [a b] Hq. unfold unw in Hq. apply in_map_iff in Hq. destruct Hq as ([[a' b'] w] & E & Ht). cbn [fst] in E.
+    injection E as -> ->. now destruct (Hall a b w Ht).
+  - revert Hd Hall. induction mw as [|[[a b] w] mw IH]; intros Hd Hall; [cbn; split; [lia|reflexivity]|].
+    destruct (Hall a b w ltac:(cbn; auto)) as [Hok La].
+    pose proof (edge_weight a b w Hok La (Hd a b w ltac:(cbn; auto))) as Hw.
+    destruct (pathop_parts pr a b La Hok) as (_ & _ & _ & _ & Hz).
+    destruct IH as [I1 I2]; [intros x y z Hxyz; apply Hd; cbn; auto|intros x y z Hxyz; apply (Hall x y z); cbn; auto|].
+    cbn [unw map fst snd ops_weight fold_right wtotal]. fold (unw mw). fold (ops_weight pr (unw mw)).
+    fold (ops_weight (negb pr) (unw mw)). fold (wtotal mw). rewrite Hz, count_true_zeros, I2. split; [lia|reflexivity].
+Qed.
+
+(* every entry of the graph carries the decoder's distance between its ends, which is symmetric *)
+Lemma pdist_out x y : ptype x -> ptype y -> same_type x y -> inb x = false -> inb y = false ->
+  Planar.distance rows cols x y = Some 0.
+Proof.
+  intros Tx Ty Sxy Ix Iy. destruct (translation_cases rows cols x y Tx Ty Sxy) as (rs & cs & Ht & Hcase).
+  unfold Planar.distance. rewrite Ht. destruct Hcase as [(_ & _ & -> & ->)|([E|E] & _)]; [reflexivity|congruence|congruence].
+Qed.
+Lemma graph_weights x y w : In (x, y, w) G ->
+  exists z, w = Some z /\ Planar.distance rows cols x y = Some z /\ Planar.distance rows cols y x = Some z.
+Proof.
+  intros Hin.
+  assert (Hsym : forall u v, same_type u v -> same_type v u) by (intros u v [A B]; split; congruence).
+  assert (Hdsf : forall u, In u ds -> ptype u /\ inb u = true /\ lat u pr).
+  { intros u Hu. destruct (Hds u Hu) as [HP Pu]. destruct (defect_facts rows cols Hr Hc u HP) as (Tu & _ & Iu & _).
+    repeat split; auto. }
+  apply graph_edge_cases in Hin. destruct Hin as [(Ha & -> & ->)|[(Ha & Hb & ->)|(Ha & Hb & ->)]].
+  - destruct (Hds x Ha) as [HP _]. destruct (defect_facts rows cols Hr Hc x HP) as (Tx & _ & Ix & Tv & Sv & _).
+    rewrite <- (distance_sym rows cols x (vn x) Tx Tv (Hsym _ _ Sv) (or_introl Ix)).
+    rewrite (distance_taxicab rows cols x (vn x) Tx Tv (Hsym _ _ Sv) (or_introl Ix)). eauto.
+  - destruct (Hdsf x Ha) as (Tx & Ix & Lx), (Hdsf y Hb) as (Ty & Iy & Ly).
+    pose proof (lat_same_type x y pr Lx Ly) as Sxy.
+    rewrite <- (distance_sym rows cols x y Tx Ty Sxy (or_introl Ix)).
+    rewrite (distance_taxicab rows cols x y Tx Ty Sxy (or_introl Ix)). eauto.
+  - assert (Hv : forall u, In u VN -> lat u pr /\ inb u = false).
+    { intros u Hu. split; [|exact (vnodes_out rows cols Hr Hc ds extra pr Hds Hex u Hu)].
+      assert (Hl : In u (lattice_nodes rows cols ds extra)) by (rewrite lattice_nodes_vnodes; apply in_app_iff; auto).
+      now destruct (lattice_node_facts rows cols Hr Hc ds extra pr Hds Hexl Hex u Hl). }
+    destruct (Hv x Ha) as [Lx Ix], (Hv y Hb) as [Ly Iy]. pose proof (lat_same_type x y pr Lx Ly) as Sxy.
+    exists 0. split; [reflexivity|]. split; apply pdist_out; auto; try apply Lx; try apply Ly.
+Qed.
+
+Lemma gweight_spec a b : (exists w, In (a, b, w) G \/ In (b, a, w) G) ->
+  exists z, Planar.distance rows cols a b = Some z /\ gweight G a b = z /\ (In (a, b, Some z) G \/ In (b, a, Some z) G).
+Proof.
+  intros (w0 & Hw0).
+  assert (Hj : exists t, In t G /\ joins a b t = true).
+  { destruct Hw0 as [H|H]; [exists (a, b, w0)|exists (b, a, w0)]; (split; [exact H|]); unfold joins; cbn [fst snd];
+      rewrite !zeqb2_refl; cbn; auto using orb_true_r. }
+  destruct Hj as (t0 & Ht0 & Hj0). destruct (find_ex _ _ _ Ht0 Hj0) as (t & Hf).
+  destruct (find_some _ _ Hf) as [Hin Hj]. destruct t as [[x y] w]. unfold gweight. rewrite Hf.
+  destruct (graph_weights x y w Hin) as (z & -> & D1 & D2). exists z.
+  unfold joins in Hj. cbn [fst snd] in Hj. apply orb_true_iff in Hj. rewrite !andb_true_iff, !zeqb2_eq in Hj.
+  destruct Hj as [[-> ->]|[-> ->]]; auto.
+Qed.
+Lemma drawn_gweight a b w : In (a, b, Some w) G \/ In (b, a, Some w) G -> gweight G a b = w.
+Proof.
+  intros H. destruct (gweight_spec a b ltac:(exists (Some w); exact H)) as (z & D & -> & _).
+  destruct H as [H|H]; destruct (graph_weights _ _ _ H) as (z' & E & D1 & D2); injection E as ->; congruence.
+Qed.
+
+(* a minimum-weight perfect matching in the bare-pairs formulation is one in the weighted formulation *)
+Definition with_weights (m : mates) : wmates := map (fun p => (fst p, snd p, gweight G (fst p) (snd p))) m.
+Lemma wtotal_with_weights m : wtotal (with_weights m) = mweight G m.
+Proof. induction m as [|p m IH]; [reflexivity|]. cbn [with_weights map wtotal mweight fold_right snd]. fold (with_weights m).
+  fold (wtotal (with_weights m)). fold (mweight G m). now rewrite IH. Qed.
+Lemma wtotal_drawn mw : drawn G mw -> wtotal mw = mweight G (unw mw).
+Proof.
+  induction mw as [|[[a b] w] mw IH]; intros Hd; [reflexivity|].
+  cbn [unw map wtotal mweight fold_right fst snd]. fold (unw mw). fold (wtotal mw). fold (mweight G (unw mw)).
+  rewrite (drawn_gweight a b w (Hd a b w ltac:(cbn; auto))). rewrite IH by (intros x y z H; apply Hd; cbn; auto). reflexivity.
+Qed.
+Theorem min_matching_weighted m : min_matching G (lattice_nodes rows cols ds extra) m ->
+  min_perfect_in G (lattice_nodes rows cols ds extra) (with_weights m) /\ unw (with_weights m) = m.
+Proof.
+  intros (Pm & Hu & Hmin).
+  assert (Eu : unw (with_weights m) = m) by apply unw_map_pairs.
+  split; [|exact Eu]. split; [split|].
+  - now rewrite Eu.
+  - intros a b w Hin. unfold with_weights in Hin. apply in_map_iff in Hin. destruct Hin as ([x y] & E & Hxy).
+    cbn [fst snd] in E. injection E as <- <- <-. destruct (gweight_spec x y (Hu x y Hxy)) as (z & _ & -> & H). exact H.
+  - intros mw' [Pm' Hd']. rewrite wtotal_with_weights, (wtotal_drawn mw' Hd'). apply Hmin; [exact Pm'|now apply drawn_uses].
+Qed.
 End OneLattice.
+
+(* ------------------------------------------------------------------ *)
+(** * The theorem                                                       *)
+(* ------------------------------------------------------------------ *)
+Definition xweight (e : bsf) : nat := count_true (firstn N e).   (* qubits carrying X or Y *)
+Definition zweight (e : bsf) : nat := count_true (skipn N e).    (* qubits carrying Z or Y *)
+Definition tcap : Z := (Z.min rows cols - 1) / 2.
+
+Lemma defects_filter e : defects rows cols (syndrome_of STABS e) = filter (fun q => bsp e (stabq q)) PI.
+Proof.
+  unfold defects, syndrome_to_plaquette_indices, syndrome_of. rewrite (code_eq rows cols). cbn [stabs].
+  rewrite map_map. apply select_map_filter.
+Qed.
+Lemma primal_defects_char e q : In q (primal_defects rows cols (syndrome_of STABS e)) <->
+  In q PI /\ planar_is_primal q = true /\ bsp e (stabq q) = true.
+Proof. unfold primal_defects. rewrite defects_filter, !filter_In. tauto. Qed.
+Lemma dual_defects_char e q : In q (dual_defects rows cols (syndrome_of STABS e)) <->
+  In q PI /\ planar_is_primal q = false /\ bsp e (stabq q) = true.
+Proof. unfold dual_defects, planar_is_dual. rewrite defects_filter, !filter_In, negb_true_iff. tauto. Qed.
+Lemma NoDup_defects e : NoDup (primal_defects rows cols (syndrome_of STABS e)) /\ NoDup (dual_defects rows cols (syndrome_of STABS e)).
+Proof. unfold primal_defects, dual_defects. rewrite defects_filter. split; apply NoDup_filter, NoDup_filter, NoDup_PI. Qed.
+
+Lemma ops_weight_app pr m1 m2 : ops_weight pr (m1 ++ m2) = (ops_weight pr m1 + ops_weight pr m2)%nat.
+Proof.
+  induction m1 as [|q m IH]; [reflexivity|]. cbn [app ops_weight fold_right]. fold (ops_weight pr (m ++ m2)).
+  fold (ops_weight pr m). lia.
+Qed.
+
+Theorem planar_mwpm_corrects (e : bsf) (mwp mwd : wmates) :
+  length e = (N + N)%nat -> Z.of_nat (xweight e) <= tcap -> Z.of_nat (zweight e) <= tcap ->
+  let syn := syndrome_of STABS e in
+  min_perfect_in (primal_graph rows cols syn) (primal_nodes rows cols syn) mwp ->
+  min_perfect_in (dual_graph rows cols syn) (dual_nodes rows cols syn) mwd ->
+  exists r, mwpm_recovery rows cols (unw mwp ++ unw mwd) = Some r /\ length r = (N + N)%nat /\
+            syndrome_of STABS r = syn /\ in_spanP (N + N) STABS (xorv r e).
+Proof.
+  intros He Wx Wz syn [Pp Mp] [Pd Md].
+  assert (Hdp : forall q, In q (primal_defects rows cols syn) -> In q PI /\ planar_is_primal q = true)
+    by (intros q Hq; apply primal_defects_char in Hq; tauto).
+  assert (Hdd : forall q, In q (dual_defects rows cols syn) -> In q PI /\ planar_is_primal q = false)
+    by (intros q Hq; apply dual_defects_char in Hq; tauto).
+  destruct (NoDup_defects e) as [Np Nd].
+  destruct (extra_primal_facts rows cols) as [Lep Iep]. destruct (extra_dual_facts rows cols) as [Led Ied].
+  pose proof (not_instrip_extra_primal rows cols) as Sep. pose proof (not_instrip_extra_dual rows cols) as Sed.
+  (* (1) cheap matchings exist, so the minimum ones are cheap *)
+  destruct (cheap_matching true _ extra_primal Hdp Np Sep e He (primal_defects_char e)) as (mp' & Hp' & Wp').
+  destruct (cheap_matching false _ extra_dual Hdd Nd Sed e He (dual_defects_char e)) as (md' & Hd' & Wd').
+  pose proof (Mp mp' Hp') as Lp. pose proof (Md md' Hd') as Ld.
+  (* (2) the recovery parts are no heavier than the matchings *)
+  destruct (matching_weight true _ extra_primal Hdp Iep Sep Lep mwp Pp) as (Okp & Wmp & Zmp).
+  destruct (matching_weight false _ extra_dual Hdd Ied Sed Led mwd Pd) as (Okd & Wmd & Zmd).
+  cbn [negb] in Zmp, Zmd.
+  set (m := unw mwp ++ unw mwd).
+  assert (Hok : forall q, In q m -> ok rows cols (fst q) (snd q)).
+  { intros q Hq. apply in_app_iff in Hq. destruct Hq; auto. }
+  destruct (apply_paths_xsum rows cols Hr Hc m (new_pauli rows cols) Hok) as (p' & Hp1 & Hp2);
+    [unfold new_pauli, pzero; cbn; apply zeros_length|unfold new_pauli, pzero; cbn; apply zeros_length|].
+  pose proof (pair_ops_rowlen idx (N + N) pop (ok rows cols) (ok_len rows cols Hr Hc) m Hok) as Hrow.
+  rewrite new_pauli_bsf, xorv_zeros_l in Hp2 by (apply xsum_len; exact Hrow).
+  assert (HLs : length syn = length PI) by (unfold syn; now rewrite syndrome_length, stabs_len).
+  destruct Pp as [PermP DrP], Pd as [PermD DrD].
+  destruct (planar_mwpm_syndrome_graph rows cols Hr Hc syn (unw mwp) (unw mwd) HLs PermP PermD
+              (drawn_uses _ _ DrP) (drawn_uses _ _ DrD)) as (r & R1 & R2 & R3).
+  exists r. split; [exact R1|]. split; [exact R2|]. split; [exact R3|].
+  assert (Er : r = xsum (N + N) (pair_ops idx pop m)).
+  { fold m in R1. unfold mwpm_recovery in R1. rewrite Hp1 in R1. cbn [option_map] in R1. injection R1 as <-. exact Hp2. }
+  (* (3) recovery xor error is light and commutes with every stabilizer *)
+  assert (Lxe : length (xorv r e) = (N + N)%nat) by (rewrite xorv_length; lia).
+  pose proof (xsum_part_le true m Hok) as Bx. pose proof (xsum_part_le false m Hok) as Bz.
+  rewrite <- Er in Bx, Bz. unfold m in Bx, Bz. rewrite ops_weight_app in Bx, Bz. unfold part in Bx, Bz.
+  apply (light_commuting_in_span rows cols Hr Hc); [exact Lxe| | |].
+  - apply (syndrome_eq_zero STABS r e N); [lia|lia|exact R3].
+  - rewrite firstn_xorv. pose proof (count_true_xorv (firstn N r) (firstn N e)). unfold xweight, part in *. unfold tcap in *. lia.
+  - rewrite skipn_xorv by lia. pose proof (count_true_xorv (skipn N r) (skipn N e)). unfold zweight, part in *. unfold tcap in *. lia.
+Qed.
 End Correct.
+
+
